@@ -7,6 +7,7 @@ Request:  `K <nruns> (<variant> <schedule>)*`
   binary (a different content has a different hash and a different listing);
   schedule := `ok` | `missing` | `fail:<j>` (the disassembler prints j chunks, exits non-zero)
             | `kill:<j>` (the profiler is killed while the disassembler has printed j chunks)
+            | `fsize:<q>` (a write to the temporary file fails with EFBIG after q/12 of the bytes)
 Reply:    one group per run, separated by ` | `:
   `<result> <cache> <log>`  result := `ok` | `err` | `dead`
                             cache  := `absent` | `complete:<variant>` | `other`   (the final cache path after the run)
@@ -32,6 +33,7 @@ def parseSchedule (s : String) : Option (String × Nat) :=
   | ["missing"] => some ("missing", 0)
   | ["fail", j] => j.toNat?.map (fun j => ("fail", j))
   | ["kill", j] => j.toNat?.map (fun j => ("kill", j))
+  | ["fsize", q] => q.toNat?.map (fun q => ("fsize", q))
   | _ => none
 
 def envFor (fs : FS) (v i : Nat) (kind : String) (j : Nat) : Env :=
@@ -44,6 +46,13 @@ def envFor (fs : FS) (v i : Nat) (kind : String) (j : Nat) : Env :=
     match t.findIdx? (· == "cmdRun") with
     | some k => { e with crashAt := some (k + 1), early := fun _ => 65 + 4 * j }
     | none => e          -- a cache hit: the disassembler is never started, nothing to interrupt
+  else if kind = "fsize" then
+    -- a write(2) to the temporary file fails: run as an I/O fault at the Flush step (for what is
+    -- compared — exit status, cache path, log line — the position of the failing write does not matter)
+    let t := (CacheSpec.doObjdump binaryPath (hashOf v) (World.start fs e)).2.trace
+    match t.findIdx? (· == "flush") with
+    | some k => { e with fault := fun i => i == k, early := fun _ => 4096 * j }
+    | none => e
   else e
 
 def cacheState (fs : FS) : String :=
